@@ -104,13 +104,20 @@ fn run(name: &str) -> String {
             let mut s = HllSketch::new(4, HllType::Hll4);
             for i in 0..40 { s.update(i); }
             let mut b = s.serialize();
-            b[6] = 250;
+            b[6] = 255;
             match HllSketch::deserialize(&b) {
                 Err(e) => format!("rejected: {e}"),
                 Ok(d) => {
+                    let e0 = d.estimate();
+                    let (lb, ub) = (d.lower_bound(NumStdDev::Two), d.upper_bound(NumStdDev::Two));
+                    let mut d2 = d.clone();
+                    for i in 0..5000u64 { d2.update(i); }
                     let mut u = HllUnion::new(4);
                     u.update(&d);
-                    format!("accepted; union estimate {}", u.estimate())
+                    let mut u5 = HllUnion::new(5);
+                    u5.update(&HllSketch::new(5, HllType::Hll8));
+                    u5.update(&d);
+                    format!("accepted; estimate {e0} [{lb}, {ub}] updated {} union {} {}", d2.estimate(), u.estimate(), u5.estimate())
                 }
             }
         }
@@ -155,6 +162,23 @@ fn run(name: &str) -> String {
                 Ok(d) => { let mut u = HllUnion::new(4); u.update(&d); format!("{:?}", &u.to_sketch(HllType::Hll8).serialize()[40..]) }
             };
             format!("compact -> {} | updatable -> {}", show(&compact), show(&updatable))
+        }
+        "hll_num_zeros_0" => {
+            // the zero-register count of an array image is taken from the image as is: with 0 announced while zero registers
+            // exist, the next update of such a register decrements it below zero
+            let mut out = vec![];
+            for ty in [HllType::Hll4, HllType::Hll6, HllType::Hll8] {
+                let mut s = HllSketch::new(6, ty);
+                for i in 0..40 { s.update(i); }
+                let mut b = s.serialize();
+                b[32] = 0; b[33] = 0; b[34] = 0; b[35] = 0;
+                let r = std::panic::catch_unwind(move || match HllSketch::deserialize(&b) {
+                    Err(e) => format!("rejected: {e}"),
+                    Ok(mut d) => { for i in 1000..3000u64 { d.update(i); } format!("accepted; estimate {}", d.estimate()) }
+                });
+                out.push(format!("{ty:?}: {}", match r { Ok(s) => s, Err(e) => format!("PANIC {:?}", e.downcast_ref::<String>().cloned().or(e.downcast_ref::<&str>().map(|x| x.to_string()))) }));
+            }
+            out.join(" | ")
         }
         "hll4_aux_dup" => {
             let mut s = HllSketch::new(4, HllType::Hll4);
@@ -387,6 +411,25 @@ fn run(name: &str) -> String {
         // ---------------- frequent items
         "fi_lg_200" => { let b = vec![1u8, 1, 10, 200, 200, 5, 0, 0]; format!("{:?}", FrequentItemsSketch::<i64>::deserialize(&b).map(|s| s.total_weight())) }
         "fi_lg_40" => { let b = vec![1u8, 1, 10, 40, 40, 5, 0, 0]; format!("{:?}", FrequentItemsSketch::<i64>::deserialize(&b).map(|s| s.total_weight())) }
+        "fi_offset_max" => {
+            // offset and stream_weight are stored from the image as they are: value + offset overflows in estimate()
+            let mut s = FrequentItemsSketch::<i64>::new(8);
+            s.update(1); s.update(2);
+            let mut b = s.serialize();
+            for x in &mut b[24..32] { *x = 0xff; }
+            let r1 = std::panic::catch_unwind(|| match FrequentItemsSketch::<i64>::deserialize(&b) {
+                Err(e) => format!("rejected: {e}"),
+                Ok(d) => format!("accepted; estimate(1)={} ub={}", d.estimate(&1), d.upper_bound(&1)),
+            });
+            let mut b2 = s.serialize();
+            for x in &mut b2[16..24] { *x = 0xff; }
+            let r2 = std::panic::catch_unwind(|| match FrequentItemsSketch::<i64>::deserialize(&b2) {
+                Err(e) => format!("rejected: {e}"),
+                Ok(mut d) => { d.update(3); format!("accepted; total {}", d.total_weight()) }
+            });
+            let f = |r: std::thread::Result<String>| match r { Ok(s) => s, Err(e) => format!("PANIC {:?}", e.downcast_ref::<String>().cloned().or(e.downcast_ref::<&str>().map(|x| x.to_string()))) };
+            format!("offset=MAX: {} | stream_weight=MAX: {}", f(r1), f(r2))
+        }
         "fi_active_max" => {
             let mut b = vec![4u8, 1, 10, 10, 4, 0, 0, 0]; b.extend_from_slice(&u32::MAX.to_le_bytes()); b.extend_from_slice(&0u32.to_le_bytes());
             b.extend_from_slice(&5u64.to_le_bytes()); b.extend_from_slice(&0u64.to_le_bytes());
